@@ -30,7 +30,12 @@ Inductive fault :=
 | FCorrupt | FTruncated
 | FStallHdr         (* no response header before the client timeout: client.Do fails *)
 | FStallBody        (* header arrives, body stalls until the client timeout: the callback fails *)
-| FCtxCancel.       (* the caller's context is cancelled while this request is in flight *)
+| FCtxCancel        (* the caller's context is cancelled while this request is in flight *)
+| FOkCancel.        (* the request is answered un-faulted and fully processed (the block is
+                       committed); then, before the next request, the caller's context is cancelled *)
+
+(* what was done to the RESPONSE (FOkCancel leaves it alone: the cancellation is the caller's) *)
+Definition resp_fault (f : fault) : fault := match f with FOkCancel => FOk | _ => f end.
 
 Inductive kind := KPlain | KP2PHttp | KStream.
 
@@ -69,7 +74,7 @@ Definition genuine (w : world) (nopath : bool) : xres :=
 
 Definition apply_fault (f : fault) (g : xres) : xres :=
   match f with
-  | FOk => g
+  | FOk | FOkCancel => g
   | FStatus n => XStatus n
   | FNotFound => XStatus 404
   | FForbidden => XStatus 403
@@ -78,7 +83,7 @@ Definition apply_fault (f : fault) (g : xres) : xres :=
   | FCorrupt | FTruncated | FStallBody => match g with XOkGood => XOkBad | _ => g end
   end.
 
-Definition is_cancel (f : fault) : bool := match f with FCtxCancel => true | _ => false end.
+Definition is_cancel (f : fault) : bool := match f with FCtxCancel | FOkCancel => true | _ => false end.
 
 Definition pin_ok (pinned : option nat) (a : nat) : bool :=
   match pinned with None => true | Some b => a =? b end.
@@ -92,7 +97,7 @@ Definition exchange (w : world) (pinned : option nat) (a : nat) (np : bool) (r :
   else
     let f := hd FOk (n_script n) in
     (apply_fault f (genuine w np),
-     {| n_script := tl (n_script n); n_cancelled := is_cancel f; n_log := (a, np, r, Some f) :: n_log n |}).
+     {| n_script := tl (n_script n); n_cancelled := is_cancel f; n_log := (a, np, r, Some (resp_fault f)) :: n_log n |}).
 
 (* ---------------------------------------------------------------------------------- *)
 (* Syncer.fetch                                                                        *)
@@ -206,9 +211,17 @@ Fixpoint chunk_aux (d k : nat) (cur : list nat) (l : list nat) : list (list nat)
 Definition segments (seg : nat) (l : list nat) : list (list nat) :=
   match seg with O => [l] | _ => chunk_aux seg seg [] l end.
 
-(* does the hook call with index hookfail fall into calls [k, k + len) *)
-Definition hook_fails (hookfail : option nat) (k len : nat) : bool :=
-  match hookfail with None => false | Some i => (k <=? i) && (i <? k + len) end.
+(* what the block hook does at one of its calls: FailSync, or cancel the caller's context *)
+Inductive hookact := HFail (i : nat) | HCancel (i : nat).
+
+(* does the hook call with index i fall into calls [k, k + len) *)
+Definition hook_fails (hookfail : option hookact) (k len : nat) : bool :=
+  match hookfail with Some (HFail i) => (k <=? i) && (i <? k + len) | _ => false end.
+Definition hook_cancels (hookfail : option hookact) (k len : nat) : bool :=
+  match hookfail with Some (HCancel i) => (k <=? i) && (i <? k + len) | _ => false end.
+
+Definition cancel_net (n : net) : net :=
+  {| n_script := n_script n; n_cancelled := true; n_log := n_log n |}.
 
 Record hres := {
   h_ok : bool;
@@ -220,7 +233,7 @@ Record hres := {
 }.
 
 Fixpoint handle_segs (fx : fixes) (w : world) (segmented : bool) (segs : list (list nat))
-         (hookfail : option nat) (sy : syncer) (n : net) (store : list nat) (hooks : list nat) : hres :=
+         (hookfail : option hookact) (sy : syncer) (n : net) (store : list nat) (hooks : list nat) : hres :=
   match segs with
   | [] => {| h_ok := true; h_count := length hooks; h_hooks := hooks; h_sy := sy; h_net := n; h_store := store |}
   | s :: rest =>
@@ -231,11 +244,12 @@ Fixpoint handle_segs (fx : fixes) (w : world) (segmented : bool) (segs : list (l
         let hooks' := hooks ++ s in
         if segmented && hook_fails hookfail (length hooks) (length s) then   (* segSync.err != nil *)
           {| h_ok := false; h_count := 0; h_hooks := hooks'; h_sy := sy'; h_net := n'; h_store := store' |}
-        else handle_segs fx w segmented rest hookfail sy' n' store' hooks'
+        else handle_segs fx w segmented rest hookfail sy'
+               (if hook_cancels hookfail (length hooks) (length s) then cancel_net n' else n') store' hooks'
     end
   end.
 
-Definition handle (fx : fixes) (w : world) (seg : nat) (h stop : nat) (hookfail : option nat)
+Definition handle (fx : fixes) (w : world) (seg : nat) (h stop : nat) (hookfail : option hookact)
            (sy : syncer) (n : net) (store : list nat) : hres :=
   handle_segs fx w (0 <? seg) (segments seg (todo h stop)) hookfail sy n store [].
 
@@ -250,7 +264,8 @@ Record op := {
   op_head : nat;
   op_faults : list fault;
   op_discfail : bool;           (* the libp2p-HTTP discovery request fails *)
-  op_hookfail : option nat
+  op_hookfail : option hookact;
+  op_precancel : bool           (* the caller's context is cancelled before the sync is called *)
 }.
 
 Inductive event := EvOk (h count : nat) | EvErr (h count : nat).   (* count of an error event: what handle returned *)
@@ -350,7 +365,7 @@ Definition blocked (st : sstate) : bool := (0 <? s_max st) && (s_max st <=? s_sl
 
 Definition remove (h : nat) (l : list nat) : list nat := filter (fun x => negb (x =? h)) l.
 
-Definition net0 (o : op) : net := {| n_script := op_faults o; n_cancelled := false; n_log := [] |}.
+Definition net0 (o : op) : net := {| n_script := op_faults o; n_cancelled := op_precancel o; n_log := [] |}.
 
 Definition mk_obs (r : result) (ev : list event) (n : net) (hooks : list nat) : obs :=
   {| o_res := r; o_events := ev; o_log := rev (n_log n); o_hooks := hooks |}.
